@@ -26,6 +26,10 @@ static std::vector<std::string> scenario_args(int sc, const std::string& wd) {
               a.insert(a.end(), {"--gui", "false", "-c", cfg, "-o", wd + "/out.h5"}); } break;                       // canonical names in a parent config, alpha0 (no f_s)
     case 3: { std::ofstream f(cfg); f << "steps=555\nRFVoltage=1.5e6\nSyncFreq=7100\nBunchCurrent=2e-3\nGridSize=32\n";
               a.insert(a.end(), {"--gui", "false", "-c", cfg, "-o", wd + "/out.h5"}); } break;                       // legacy aliases in a parent config
+    case 5: { std::ofstream f(cfg); f << "steps=2000\nStepsPerTs=500\nRFVoltage=1.5e6\nAcceleratingVoltage=8e5\nSyncFreq=7100\nSynchrotronFrequency=6500\nGridSize=32\n";
+              a.insert(a.end(), {"--gui", "false", "-c", cfg, "-o", wd + "/out.h5"}); } break;                       // half-migrated parent config: legacy and current name of the same quantity, different values
+    case 6: { std::ofstream f(cfg); f << "steps=2000\nRFVoltage=1.5e6\nSyncFreq=7100\nGridSize=32\n";
+              a.insert(a.end(), {"--gui", "false", "-c", cfg, "-o", wd + "/out.h5", "-N", "500", "-V", "8e5", "-f", "6500"}); } break;   // legacy names in the parent config, current names on the command line
     case 4: a.insert(a.end(), {"--gui", "false", "-o", wd + "/out.h5", "--alpha0", "5.5e-3", "-I", "3e-3"}); break; // alpha0 on the command line, one bunch
     }
     return a;
